@@ -869,6 +869,15 @@ def rule_flags_model(ctx) -> None:
     ctx.chk.decide(not probs, "C01.flags-model", f"{MIX}::Mbi_MixinIvt.create_flags <-> readers", f"the flags word reads back as the components it was made from ({n} model images)", "; ".join(probs[:2])[:600], "", A.loc(MIX, cf.node))
 
 
+def rule_revision_flow(ctx) -> None:
+    """C01.revision-flow: an image class built for (family, revision) hands its revision to every callee that takes one (TrustZone preset
+    sizes, database look-ups): a call that leaves it out works on the latest revision - right for what the tests build, wrong for a
+    parse / export at any other revision (the TrustZone block of lpc55s69 a0 is 460 bytes, of a1 464)."""
+    from ..engines import paramflow
+    n = paramflow.check(ctx, "C01.revision-flow", ["spsdk/image/mbi/mbi_mixin.py", "spsdk/image/mbi/mbi.py", "spsdk/image/trustzone.py"], self_attr=True)
+    ctx.chk.floor("C01.revision-flow", 20)
+
+
 def run(ctx) -> None:
     ctx.chk.explain("C01: IVT flag encoder/decoders by bit provenance; IVT word windows written, cleared and read at the same constants; the dynamic MBI classes are reconstructed "
                     "statically from every database (C3 MRO over the mixin list) and linted: providers, attribute closure, image types, ZeroTotalLength only on plain images, "
@@ -886,6 +895,14 @@ def run(ctx) -> None:
     ctx.rule(rule_reloc_table)
     ctx.rule(rule_parse_validates)
     ctx.rule(rule_flags_model)
+    ctx.rule(rule_revision_flow)
+
+    def _enc_layout(c) -> None:
+        # the encrypted image's layout (new IVT | rest of application incl. relocation table | certificate block | IVT copy | IV | TrustZone) and the
+        # windows its revert re-assembles are one mechanism with C02's encryption twin: the header words describe the bytes emitted only if it holds
+        from . import c02 as _c02
+        c.borrow(_c02.rule_hmac_enc, "C02.enc-twin", "C01.encrypted-layout")
+    ctx.rule(_enc_layout)
     from . import c17 as _c17
     _t = _c17.build_taint(ctx)
     ctx.rule(_c17.rule_stable_getter, _t, "C01")
